@@ -236,5 +236,44 @@ def replay(ctx, vals, H, hf32, hvec4, mj, opts, want):
     return real != det['expected_emitted'] or bool(dup), det
 
 
+def native(ctx):
+    S = ctx.S
+    d = S.dump(SRC)
+    mj = d['module']
+    H = {t['name']: i for i, t in enumerate(mj['types']) if t['name']}
+    hf32 = next(i for i, t in enumerate(mj['types']) if t['inner'].get('Scalar') == {'kind': 'Float', 'width': 4})
+    hvec4 = next(i for i, t in enumerate(mj['types']) if 'Vector' in t['inner'])
+    edges = {i: [t['inner']['Array']['base']] for i, t in enumerate(mj['types']) if 'Array' in t['inner']}
+    member_dom = {1: [hf32, H['S0'], H['A0'], H['R0'], H['AA0']], 2: [hf32, H['S0'], H['S1'], H['A1'], H['R1']], 3: [hf32, H['S1'], H['S2'], H['A2'], H['A0']]}
+    gdom = [hf32, H['S0'], H['S1'], H['S2'], H['S3'], H['A0'], H['A2'], H['AA0'], H['R1']]
+    n = 40 if ctx.tier == 'quick' else 400
+    opts = dict(derive_encase_host_shareable=True)
+    done = False
+    for i in range(n):
+        vals = {'g0': ctx.rng.choice(gdom), 'g1': ctx.rng.choice(gdom), 'g2': ctx.rng.choice([hf32, H['S0'], H['A0']]),
+                'S1.m': ctx.rng.choice(member_dom[1]), 'S2.m': ctx.rng.choice(member_dom[2]), 'S3.m': ctx.rng.choice(member_dom[3]),
+                'e0.arg': ctx.rng.choice([H['S0'], H['Unused']]), 'e1.arg': ctx.rng.choice([H['S0'], H['S1'], H['S3'], hvec4]),
+                'e0.res': ctx.rng.choice([hvec4, H['S0']]), 'e1.res': ctx.rng.choice([hvec4, H['S0'], H['S1']])}
+        # concrete reachability
+        reach = {vals['g0'], vals['g1'], vals['g2']}
+        memb = {H['S1']: vals['S1.m'], H['S2']: vals['S2.m'], H['S3']: vals['S3.m']}
+        changed = True
+        while changed:
+            changed = False
+            for t in list(reach):
+                for nx in edges.get(t, []) + ([memb[t]] if t in memb else []):
+                    if nx not in reach:
+                        reach.add(nx)
+                        changed = True
+        args = {vals['e0.arg'], vals['e1.arg']}
+        ress = {vals['e0.res'], vals['e1.res']}
+        want = {s_: (H[s_] in reach) or (H[s_] in args and H[s_] not in ress) for s_ in STRUCTS}
+        rep, det = replay(ctx, vals, H, hf32, hvec4, mj, opts, want)
+        if rep and not done:
+            done = True
+            ctx.report('C08/native', f'usage {vals}: emitted {det.get("real")}, host-visible {det.get("expected_emitted")}', det, True, det)
+        elif not rep:
+            ctx.replayed_ok += 1
+
 if __name__ == '__main__':
-    sys.exit(main('C08', run))
+    sys.exit(main('C08', run, native))
